@@ -16,5 +16,9 @@ CONSTANTS
   StopKA = FALSE
   CloseAtomic = TRUE
   KeepSink = TRUE
+  FailSet = {0}
+  MaxReq = 1
+  SharedBuf = FALSE
+  MmEncodeInAdd = FALSE
 INVARIANT NoSplice
 CHECK_DEADLOCK FALSE
